@@ -39,6 +39,8 @@ def enum_plans(tier):
     # every history of connection attempts of each outcome followed by silence long enough for the workers to exit
     return [dict(cfg="B", depth=9 if th else 8, maxtime=9 if th else 8, alpha=["ceaok"], faults=True, maxconn=2),
             dict(cfg="A", depth=9 if th else 8, maxtime=9 if th else 8, alpha=["cerok", "garbage"], faults=False, maxconn=1),
+            # capabilities requests of every outcome (known / unknown host, no common application) and what they leave behind
+            dict(cfg="A", depth=5 if th else 4, maxtime=2, alpha=["cer"], faults=True, maxconn=2),
             # a peer with two connections: requests answered over either, then the connections end in every order
             dict(cfg="A", depth=5 if th else 4, maxtime=1, alpha=["req1", "req2"], faults=True, maxconn=2, prefix=two_conn_prefix()),
             # the peer stops reading with output queued for it, then the connection closes itself (undecodable bytes) or is lost
@@ -153,11 +155,11 @@ def cycle(kind, r: nt.Runner, i: int):
         r.do({"a": "peer_close", "c": c})
     elif kind == "conn_unknown_peer":
         st = r.do({"a": "connect"})
-        r.do({"a": "feed", "c": st["out"][0]["c"], "ms": [_cer("x.r9")]})
+        r.do({"a": "feed", "c": st["out"][0]["c"], "ms": [_cer("x.r9", hbh=hb)]})     # (identifiers differ from one repetition to the next)
     elif kind == "conn_no_common_app":
         st = r.do({"a": "connect"})
         c = st["out"][0]["c"]
-        r.do({"a": "feed", "c": c, "ms": [nt.M("CE", True, 1, 1, oh="p1.r1", auth=[77])]})
+        r.do({"a": "feed", "c": c, "ms": [nt.M("CE", True, hb, hb, oh="p1.r1", auth=[77])]})
         r.do({"a": "peer_reset", "c": c})
     elif kind == "conn_cer_timeout":
         r.do({"a": "connect"})
